@@ -20,6 +20,15 @@ def check(ctx):
     x = X.var("psll") / 100
     want = X.const(Fr(COEFFS[0])) + X.const(Fr(COEFFS[1])) * x + X.const(Fr(COEFFS[2])) * x * x + X.const(Fr(COEFFS[3])) * x * x * x
     if isinstance(r, X): ctx.compare("R1-alpha-cubic", key, r, want, ctx.repo.where(key, fn), detail="alpha(psll) must be the published cubic")
+    elif isinstance(r, PV) and all(isinstance(l, X) for _, l in pv_leaves(r)):
+        # a case split on the requested level: every branch must be the published cubic
+        from ..symalg import compare as _cmp
+        worst = None
+        for path, leaf in pv_leaves(r):
+            st_, why = _cmp(leaf, want, seed=ctx.seed)
+            if st_ != HOLDS and (worst is None or st_ == VIOLATED): worst = (st_, path, leaf, why)
+        if worst is None: ctx.holds("R1-alpha-cubic", key, "every branch is the published cubic", ctx.repo.where(key, fn))
+        else: ctx.ob("R1-alpha-cubic", key, worst[0], f"on the branch [{path_text(worst[1])}] alpha(psll) is not the published cubic {worst[3]}", ctx.repo.where(key, fn), lhs=worst[2], rhs=want)
     else: ctx.unknown("R1-alpha-cubic", key, f"kaiser_alpha not recognised: {r!r}"[:200], ctx.repo.where(key, fn))
     check_window_config(ctx, rule="R2-alpha-flows-from-psll", overlap=False)
     check_dispatch(ctx, rule_prefix="R3.", want_roles=True, kaisers=(True,), roles=("L", "w", "omega"))
